@@ -160,7 +160,8 @@ def hist_force(rng):
 
 
 def hist_evtime(rng):
-    """ticks whose event time runs ahead of / behind the clock (F71 target)"""
+    """ticks whose event time runs ahead of / behind the clock (targets the known class F71; every
+    other stream ticks at the clock time only, so any failure there is new)"""
     zn, unit, base = pick(rng)
     z = L.zone(zn)
     num = rng.randint(1, 3)
@@ -226,8 +227,8 @@ class C07(vlib.Spec):
     lean_modules = ["Banyan.Props.C07", "Banyan.Tie.C07"]
     theorems = ["Banyan.C07." + t for t in [
         "before_cases", "before_halfopen", "remove_exact", "remove_only_expired", "select_hides_expired", "select_pins",
-        "forced_cleanup_bounds", "forced_cleanup_oldest", "retention_gate_exclusive", "retention_property",
-        "ttl_update", "ttl_update_legacy_counterexample", "tick_event_time_legacy_counterexample", "applyOp_projects"]] + [
+        "forced_cleanup_bounds", "forced_cleanup_oldest", "retention_gate_exclusive", "tickWith_keeps",
+        "retention_property_partial", "retention_property_repaired", "retention_statement_fails", "ttl_update", "ttl_update_legacy_counterexample", "tick_event_time_legacy_counterexample", "applyOp_projects"]] + [
         "Banyan.Tie.C07." + t for t in ["creation_gap_tie", "tick_snap_tie", "ttl_day_tie", "keep_one_tie"]]
     go_driver = "seg"
     lean_driver = "C07"
@@ -245,6 +246,9 @@ class C07(vlib.Spec):
         "sequential histories: retention, forced cleanup and queries are interleaved at operation granularity (the retention gate "
         "is a two-state lock never observed busy); no pins are held across a retention run",
         "zones/rules inside the C06 known classes (F6, F6b) are not used here",
+        "ticks whose event time is ahead of the clock (F71, known) are sent only by the hist.evtime stream; the full statement "
+        "RetentionStatement is false for the code as written (retention_statement_fails), retention_property_partial carries the "
+        "hypothesis 'tick event time <= clock'",
     ]
     rule = ("hist.*: histories on a real OpenTSDB under a mock clock: 3-8 consecutive segments (interval 1-3 units), TTL 1-10 units "
             "(also of the other unit), clock set to segment edge + TTL +-1 ns (and random / backwards), then SelectSegments (all flag "
